@@ -554,7 +554,9 @@ func (x *Exec) builtin(n *node, name string, c *ssa.CallCommon, args []Value, rt
 		}
 	case "close":
 		if ch, ok := args[0].(Scalar); ok {
+			x.lastChanField = x.dynKey(c.Args[0])
 			x.chanClose(n, ch.T, pos)
+			x.lastChanField = ""
 			return TupleV{}
 		}
 	case "print", "println":
